@@ -8,7 +8,7 @@ import JaqalModel.Model.PyEq
 `parseProgram cfg txt` is `parse_jaqal_string(txt, inject_pulses=cfg.natives, autoload_pulses=cfg.autoload)`:
 `parse_to_sexpression` (lexer + LALR parser, `Model/Parser.lean`: `parseText`), then `Builder.build` and the
 "too many registers" check (`Model/Builder.lean`: `parseBuild`).  Passes (`expand_macro=…`, …) are not requested.
-Loading a `usepulses` module is outside the model: the theorems of C01 take `cfg.autoload = false`.
+Loading a `usepulses` module is outside the model: the theorems of C01 take `cfg.autoload = false`; Props/C01Autoload.lean lifts them to every configuration.
 
 `roundTrip cfg txt` is what the differential test evaluates on the real code:
 
